@@ -259,13 +259,15 @@ class URLInfo(object):
         if hostname.startswith('['):
             return cls.parse_ipv6_hostname(hostname)
         else:
+            # IDNA mapping and lower-casing first: they can produce an
+            # IPv4 spelling (fullwidth digits/letters, 0X7F.0.0.1)
+            new_hostname = normalize_hostname(hostname)
+
             try:
-                new_hostname = normalize_ipv4_address(hostname)
+                new_hostname = normalize_ipv4_address(new_hostname)
             except ValueError:
                 # _logger.debug('', exc_info=True)
-                new_hostname = hostname
-
-            new_hostname = normalize_hostname(new_hostname)
+                pass
 
             if any(char in new_hostname for char in FORBIDDEN_HOSTNAME_CHARS):
                 raise ValueError('Invalid hostname: {}'
